@@ -26,9 +26,15 @@ def MAGIC_BYTES : List Nat := [0x54, 0x53, 0x53, 0x46]
 structure Tbl where
   switch : Bool
   syms : Array (List Nat)
+  /-- header byte 1: `terminator & 255`, the byte `compress_bulk` writes behind every chunk as a sentinel -/
+  term : Nat := 0
 
 /-- bytes written for a code: `symbols[code]` truncated to `lens[code]` -/
 def Tbl.sym (t : Tbl) (c : Nat) : List Nat := t.syms.getD c []
+
+/-- the invariant of a finalized table that the encoder's sentinel relies on ("multi-byte symbols cannot contain the
+terminator byte", `build_symbol_table::make_table`): every symbol of two or more bytes is free of the terminator -/
+def Tbl.termFree (t : Tbl) : Bool := t.syms.toList.all (fun s => s.length < 2 || !s.contains t.term)
 
 inductive Err where
   | panic          -- an index / slice panic in safe code
@@ -52,6 +58,7 @@ def parseTable (b : Array Nat) : Except Err Tbl :=
     let lens := bytesAt b (8 + 8 * n) n
     if lens.any (· > 8) then .error .unsupported
     else .ok { switch := b.getD 3 0 % 2 = 1,
+               term := b.getD 1 0,
                syms := ((List.range' 0 n).map (fun i => (bytesAt b (8 + 8 * i) 8).take (b.getD (8 + 8 * n + i) 0))).toArray }
 
 /-- `decompress_bulk`, the part after the 4-byte loop ("handle the remaining bytes" + "last code cannot be an
@@ -175,5 +182,12 @@ def greedy (pick : List Nat → Option Nat) (t : Tbl) : Nat → List Nat → Lis
     match pick (b :: rest) with
     | some c => .sym c :: greedy pick t fuel ((b :: rest).drop (t.sym c).length)
     | none => .esc b :: greedy pick t fuel rest
+
+/-- the matcher as `compress_bulk` runs it: it sees the rest of the chunk followed by the sentinel (the terminator
+byte) and whatever the chunk buffer holds behind it (`junk`: zeros or left-overs of the previous chunk), never an
+empty rest (`while in_curr < in_end`) -/
+def windowed (pick : List Nat → Option Nat) (term : Nat) (junk : List Nat) : List Nat → Option Nat
+  | [] => none
+  | b :: rest => pick (b :: rest ++ term :: junk)
 
 end LanceModel.C28.Fsst
